@@ -99,6 +99,10 @@ def canonical_problem(n, ui):
     for i, s in enumerate(segs):
         if s in ('.', '..'):
             return 'path contains a dot segment'
+        if re.sub(r'(?i)%2e', '.', s) in ('.', '..'):
+            # "%2e" is an escaped unreserved character: servers decode it before they remove
+            # dot segments, and the URL standard lists "%2e", ".%2e", "%2e%2e" as dot segments
+            return 'path contains a percent-encoded dot segment'
         if s == '' and i != len(segs) - 1:
             return 'path contains an empty segment'
     for part in (auth, path, query or ''):
